@@ -153,7 +153,13 @@ def call(kind, ds, ss, nm, unit, cand, algs=None, warm=None):
 
 def run_history(case):
     """each history in a forked child: state the library keeps at class or module level cannot leak into the next one"""
-    return core.isolated(_run_history, case)
+    return core.isolated(_run_history, case, timeout=30, on_timeout=_hung)
+
+
+def _hung(case):
+    rec = dict(case)
+    rec.update(out="hang", snaps=[], shared=[], fresh=[])
+    return rec
 
 
 def _run_history(case):
